@@ -1424,6 +1424,11 @@ pub fn build_iter_live(name: &'static str) -> Scenario<Arc<Owner>> {
             // a rejected addition (documented panic) must not wedge what follows
             let r = std::panic::catch_unwind(std::panic::AssertUnwindSafe(|| h.add_signal(libc::SIGKILL)));
             sched::log("rejected_add", r.is_err() as u64, 0);
+            // numbers outside the table are refused too (by panic): those calls return as well
+            for bad in [1000, -1] {
+                let r = std::panic::catch_unwind(std::panic::AssertUnwindSafe(|| h.add_signal(bad)));
+                sched::log("rejected_add_out_of_range", r.is_err() as u64, bad as u64);
+            }
             h.add_signal(S2).expect("add_signal");
             sched::log("add_ret", S2 as u64, 0);
             let i = s.inst.lock().unwrap().take();
